@@ -1237,6 +1237,92 @@ def search_networks(ctx):
     S.done()
 
 
+def corr_normalize(ctx):
+    """tie of the statements of lean/QV/Props/C17c.lean to the real code.
+
+    (1) the `normalize=True` variants are the un-normalised (exactly modelled) matrices scaled by
+        s = 2^{-n/2}: comp_basis_to_pauli, pauli_to_comp_basis (B_s = s·B), liouville_to_pauli,
+        pauli_to_liouville, choi_to_chi, chi_to_choi (factor s²) — the definitions `compToPauliS`,
+        `liouvilleToPauliS`, … of QV/Proofs/PauliComplete.lean;
+    (2) the round trips of T17_*_roundtrip_flags on Gaussian-integer matrices: exact equality with
+        4^n·M for the un-normalised pair, (s1 s2 2^n)²·M within 1e-9 for the other flag pairs;
+    (3) B†B = 2^n·1 exactly (T17_pauli_unitary_left) and kraus_to_chi = choi_to_chi(kraus_to_choi)
+        exactly (T17_kraus_chi_path) on Gaussian-integer Kraus sets."""
+    from qibo.quantum_info import basis
+    from qibo.quantum_info import superoperator_transformations as st
+
+    rng = ctx.rng
+    name = "C17_corr_normalize"
+    bad = 0
+
+    def fail(key, what, py, expected=None, observed=None):
+        nonlocal bad
+        bad += 1
+        ctx.fail(key, what, HDR + py, expected=expected, observed=observed, broken=[name])
+
+    for n in (1, 2, 3):
+        d = 2**n
+        s = 1.0 / math.sqrt(d)
+        pos = ALL_PO if (n == 1 or (ctx.thorough and n == 2)) else ["IXYZ"] + rng.sample(ALL_PO, 3 if n == 2 else 1)
+        for order in ORDERS:
+            for po in pos:
+                kw = f"order={order!r}, pauli_order={po!r}"
+                B0 = np.asarray(basis.comp_basis_to_pauli(n, normalize=False, order=order, pauli_order=po))
+                B1 = np.asarray(basis.comp_basis_to_pauli(n, normalize=True, order=order, pauli_order=po))
+                C0 = np.asarray(basis.pauli_to_comp_basis(n, normalize=False, order=order, pauli_order=po))
+                C1 = np.asarray(basis.pauli_to_comp_basis(n, normalize=True, order=order, pauli_order=po))
+                ctx.case(("normalize", n, order, po))
+                ctx.stat("normalize:basis")
+                if not (close(B1, s * B0, 1e-12) and close(C1, s * C0, 1e-12) and abs(s * s * d - 1) < 1e-12):
+                    fail(f"normalize:basis:{order}", f"comp_basis_to_pauli / pauli_to_comp_basis(n={n}, normalize=True, {kw}) is not 2^(-n/2) times the un-normalised matrix",
+                         f"s = {s!r}\nfor f in (basis.comp_basis_to_pauli, basis.pauli_to_comp_basis):\n    assert np.allclose(f({n}, normalize=True, {kw}), s * f({n}, normalize=False, {kw}), atol=1e-12, rtol=0)\n")
+                # B† B = 2^n 1 exactly (integer entries), and pauli_to_comp = B†
+                if not (np.array_equal(B0.conj().T @ B0, d * np.eye(d * d)) and np.array_equal(B0 @ B0.conj().T, d * np.eye(d * d))
+                        and np.array_equal(C0, B0.conj().T)):
+                    fail(f"unitary-left:{order}", f"B†B != 2^n·1 or pauli_to_comp_basis != B† exactly (n={n}, {kw})",
+                         f"B = basis.comp_basis_to_pauli({n}, normalize=False, {kw})\nassert np.array_equal(B.conj().T @ B, {d} * np.eye({d * d}))\n"
+                         f"assert np.array_equal(basis.pauli_to_comp_basis({n}, normalize=False, {kw}), B.conj().T)\n")
+                if n == 3 and not ctx.thorough:
+                    continue
+                M = gi_matrix(rng, d * d)
+                pairs = (("liouville_to_pauli", "pauli_to_liouville"), ("pauli_to_liouville", "liouville_to_pauli"),
+                         ("choi_to_chi", "chi_to_choi"), ("chi_to_choi", "choi_to_chi"))
+                for f1, f2 in pairs:
+                    g1, g2 = getattr(st, f1), getattr(st, f2)
+                    a0 = np.asarray(nomut(g1, M, normalize=False, order=order, pauli_order=po))
+                    a1 = np.asarray(nomut(g1, M, normalize=True, order=order, pauli_order=po))
+                    ctx.stat("normalize:scaled")
+                    if not close(a1, s * s * a0, 1e-10):
+                        fail(f"normalize:{f1}:{order}", f"{f1}(M, normalize=True) is not 2^(-n)·{f1}(M, normalize=False) (n={n}, {kw})",
+                             f"M = {arr_src(M)}\nassert np.allclose(st.{f1}(M, normalize=True, {kw}), {s * s!r} * st.{f1}(M, normalize=False, {kw}), atol=1e-10, rtol=0)\n")
+                    for n1 in (False, True):
+                        for n2 in (False, True):
+                            mid = np.asarray(nomut(g1, M, normalize=n1, order=order, pauli_order=po))
+                            back = np.asarray(nomut(g2, mid, normalize=n2, order=order, pauli_order=po))
+                            fac = {(False, False): float(4**n), (True, True): 1.0}.get((n1, n2), float(2**n))
+                            exact = not n1 and not n2
+                            ok = np.array_equal(back, fac * M) if exact else close(back, fac * M, 1e-9)
+                            ctx.stat("normalize:roundtrip")
+                            if not ok:
+                                fail(f"roundtrip-flags:{f1}:{order}:{int(n1)}{int(n2)}",
+                                     f"{f2}({f1}(M, normalize={n1}), normalize={n2}) is not {fac:g}·M (n={n}, {kw})",
+                                     f"M = {arr_src(M)}\nback = st.{f2}(st.{f1}(M, normalize={n1}, {kw}), normalize={n2}, {kw})\n"
+                                     f"assert np.allclose(back, {fac!r} * M, atol=1e-9, rtol=0), np.abs(back - {fac!r} * M).max()\n",
+                                     expected=f"{fac:g}*M", observed=str(np.abs(back - fac * M).max()))
+                # path independence: kraus_to_chi = choi_to_chi(kraus_to_choi), exactly
+                kraus = gi_kraus_set(rng, n, rng.randint(1, 3))
+                chi = np.asarray(st.kraus_to_chi([(q, K.copy()) for q, K in kraus], normalize=False, order=order, pauli_order=po))
+                choi = np.asarray(st.kraus_to_choi([(q, K.copy()) for q, K in kraus], order=order))
+                via = np.asarray(st.choi_to_chi(choi, normalize=False, order=order, pauli_order=po))
+                back = np.asarray(st.chi_to_choi(chi, normalize=False, order=order, pauli_order=po))
+                ctx.stat("normalize:path")
+                if not (np.array_equal(chi, via) and np.array_equal(back, 4**n * choi)):
+                    fail(f"path:kraus_to_chi:{order}", f"kraus_to_chi != choi_to_chi(kraus_to_choi) or chi_to_choi(kraus_to_chi) != 4^n·kraus_to_choi (n={n}, {kw})",
+                         f"K = {kraus_src(kraus)}\nchi = st.kraus_to_chi(K, normalize=False, {kw})\nchoi = st.kraus_to_choi(K, order={order!r})\n"
+                         f"assert np.array_equal(chi, st.choi_to_chi(choi, normalize=False, {kw}))\nassert np.array_equal(st.chi_to_choi(chi, normalize=False, {kw}), {4**n} * choi)\n")
+    ctx.ob(name, bad == 0, "correspondence", f"{bad} disagreements" if bad else "")
+
+
 def search_basis(ctx):
     """comp_basis_to_pauli / pauli_to_comp_basis: B B† = c·1 (c = 1 normalised, d otherwise),
     pauli_to_comp = B† , rows are the conjugated vectorised Pauli strings in the documented
@@ -1341,6 +1427,7 @@ def run(ctx):
     corr_kraus(ctx)
     corr_pauli(ctx)
     corr_stinespring(ctx)
+    corr_normalize(ctx)
     search_basis(ctx)
     search_conversions(ctx)
     search_roundtrips(ctx)
@@ -1349,6 +1436,6 @@ def run(ctx):
     search_to_helpers(ctx)
     search_channels(ctx)
     search_networks(ctx)
-    ctx.notes.append("exact Gaussian-integer correspondence of the Lean index model with vectorization/unvectorization (3 orders, d in {2,3,4,8}), _reshuffling, kraus_to_choi/liouville/chi (ordered non-adjacent targets, ranks 1..d^2), Channel.to_choi/to_liouville, comp_basis_to_pauli (24 orderings), liouville_to_pauli/pauli_to_liouville/choi_to_chi/chi_to_choi, kraus_to_stinespring/stinespring_to_kraus; numeric search (1e-8) of all 30 a_to_b functions x orders x Pauli orderings x normalisations against an independent SPEC, round trips, path independence, spectral branches, Stinespring, to_* helpers, gates.Channel.to_*, quantum networks")
+    ctx.notes.append("exact Gaussian-integer correspondence of the Lean index model with vectorization/unvectorization (3 orders, d in {2,3,4,8}), _reshuffling, kraus_to_choi/liouville/chi (ordered non-adjacent targets, ranks 1..d^2), Channel.to_choi/to_liouville, comp_basis_to_pauli (24 orderings), liouville_to_pauli/pauli_to_liouville/choi_to_chi/chi_to_choi, kraus_to_stinespring/stinespring_to_kraus; normalize=True variants = 2^(-n/2)-scaled un-normalised matrices, exact B†B = 2^n·1, exact 4^n round trips and kraus_to_chi = choi_to_chi∘kraus_to_choi on Gaussian integers, flag-pair round-trip factors (C17_corr_normalize, ties Props/C17c); numeric search (1e-8) of all 30 a_to_b functions x orders x Pauli orderings x normalisations against an independent SPEC, round trips, path independence, spectral branches, Stinespring, to_* helpers, gates.Channel.to_*, quantum networks")
     ctx.assumptions.append("spectral steps (eigh, svd, qr) are library contracts; their use is checked numerically (1e-7) by reconstructing the Choi matrix from the returned operators")
     ctx.assumptions.append("kraus_to_unitaries (numerical optimisation) is outside the property check")
